@@ -13,7 +13,7 @@ For every class model x value below:
       _yatiml_sweeten applied base first;
   (3) a deep snapshot of the object graph is the same before and after;
   (4) a second dump gives the identical text.
-Bound: 9 class models (plain, defaults, _yatiml_extra at each of 3 positions,
+Bound: 10 class models (plain, defaults, _yatiml_extra at each of 3 positions,
 _yatiml_attributes, 2-level inheritance with sweeten in base and derived,
 enum / UserString / Path attributes, nested objects, Optional/List/Dict
 attributes) x the values enumerated in values_for(); extras with 0-2 entries
@@ -42,6 +42,12 @@ def record(what, model, obj, got, want):
 class Color(enum.Enum):
     red = 1
     dark_blue = 2
+
+
+class Shade(str, enum.Enum):
+    """an enum that is also string-like: still dumped by member NAME"""
+    LIGHT = 'l'
+    DARK = 'd'
 
 
 class Name(collections.UserString):
@@ -151,10 +157,10 @@ def snapshot(o, seen=None):
 def project(o):
     """the statement's projection, as plain data (lists of pairs for
     mappings so that order is compared)"""
-    if isinstance(o, bool) or o is None or isinstance(o, (int, float, str)):
-        return o
     if isinstance(o, enum.Enum):
         return o.name
+    if isinstance(o, bool) or o is None or isinstance(o, (int, float, str)):
+        return o
     if isinstance(o, (collections.UserString, pathlib.Path)):
         return str(o)
     if isinstance(o, (list, tuple)):
@@ -282,6 +288,11 @@ def main():
                     check_one('Rich', d_rich, Rich(
                         color, Name(nm), pathlib.Path('/tmp/x y'),
                         Plain(0, '', 1.5), many, table))
+    d_shade = yatiml.dumps_function(Shade)
+    d_shades = yatiml.dumps_function(Shade)
+    for sh in Shade:
+        check_one('Shade', d_shade, sh)
+        check_one('List[Shade]', d_shades, [sh, Shade.LIGHT])
     # shared sub-object: dumped twice, no anchors required by the statement,
     # but the text must still load to the projection
     shared = Plain(1, 's', 1.5)
